@@ -165,6 +165,10 @@ def build(scn, with_faults=True):
         else:
             els = [_action(wn, a) for a in c.get('else', [])]
             ctl = ct.Rule(cond, then, els if els else None, priority=c.get('priority', 3), name=c['name'])
+            if scn.get('rule_alias'):
+                # a rule that carries a name of its own, registered in the model under another key (both are the user's to choose)
+                wn.add_control('key_of_' + c['name'], ctl)
+                continue
         wn.add_control(c['name'], ctl)
 
     # a junction's own pressure-dependent-demand parameter changed during the run by a time control on the junction (public API:
